@@ -232,3 +232,7 @@ def run(ctx):
     r2_stable_time_sort(ctx, f)
     r3_timestamps_survive(ctx)
     r4_same_ancestor(ctx)
+    # shared with C04: scanning / diffing / patching the wrong log of the same type makes the
+    # merge start from a wrong ancestor and committed edits are force-merged away
+    from . import c04
+    c04.r7_log_kind_arms(ctx, rule_id="C05-R5")
